@@ -4,6 +4,7 @@ sys.path.insert(0, os.path.dirname(os.path.dirname(os.path.abspath(__file__))))
 import progen
 
 PID = "C02"
+EXTRA_TARGETS = ("BS.Properties.C02r",)
 PARALLEL = {"C02": 12}
 TIMEOUT = {"quick": 2400, "thorough": 12000}
 RULE = ("the fault suite (map-only, reduce, cogroup, fold, two-stage shuffles, a reused result, generated programs) on bigmachine "
